@@ -246,6 +246,22 @@ def _history_print(case, out, n):
                 out.append(("C18:history-print:printed-object-changed", "%r changed to %r when the object parsed from its "
                             "text was modified (%s)" % (before[3], after[3], case["mut"])))
                 return
+    # the printed object itself is now edited in place (exponent or base unit, and the value of a quantity) and printed
+    # again: the new text must mean the object as it is now, not as it was when first printed
+    try:
+        _mutate(x, case["mut"])
+        xu = x.units if isinstance(x, UnitValue) else x
+        sys_b, dim_b = tuple(uq.sys_of(xu)), tuple(uq.dim_of(xu))
+        text2 = str(x)
+        n[0] += 1
+        p2 = _call(s1, text2)
+    except Exception as e:
+        out.append(("C18:history-print:after-in-place-edit:%s:printed-text-rejected" % s1, "%s: %s" % (type(e).__name__, str(e)[:200])))
+        return
+    pu2 = p2.units if isinstance(p2, UnitValue) else p2
+    _same_units("history-print:after-in-place-edit:%s" % s1, text2, pu2, sys_b, dim_b, out)
+    if form == "quantity" and isinstance(p2, UnitValue) and _bits(p2.value) != _bits(x.value):
+        out.append(("C18:history-print:after-in-place-edit:%s:value" % s1, "%r printed as %r parsed back as %r" % (x.value, text2, p2.value)))
 
 
 def _input_alias(case, out, n):
@@ -937,7 +953,7 @@ def _spaces(tier):
         return {"sub": "history-print", "sys": S36[s], "dim": dim, "form": ("units", "quantity")[f],
                 "s1": sites[a], "s2": sites[b], "mut": MUTATIONS[m]}
     sp.append(("history-print: 36 systems x {Units, UnitValue} x 2x2 parser pairs x 4 mutations of the parsed-back object "
-               "(the printed object must not change, a second parse must be right); one exponent unique per case",
+               "(the printed object must not change, a second parse must be right), then the printed object edited in place and printed again (the new text means the object as it is now); one exponent unique per case",
                36 * 2 * 2 * 2 * 4, chpr))
     ria = [36, 2, len(MUTATIONS)]
 
